@@ -43,3 +43,26 @@ func VerifC01_Nrm2Magnitude() {
 	verifAssert(closeS(impl.Scnrm2(n, sxc, inc), ss*impl.Scnrm2(n, xc, inc)), "Scnrm2(s*x) = s*Scnrm2(x)")
 	verifReach("end")
 }
+
+// VerifC01_RotgMagnitude: Drotg/Srotg on a grid of concrete arguments: the
+// defining identities (c*a + s*b = r, -s*a + c*b = 0, c^2 + s^2 = 1) and
+// homogeneity under exact power-of-two factors whose squares over/underflow
+// (c, s and z unchanged, r scaled).
+func VerifC01_RotgMagnitude() {
+	impl := Implementation{}
+	vals := []float64{3, -2, 0.5, 0, -7, 1}
+	a := vals[verifChoose("a", 0, len(vals)-1)]
+	b := vals[verifChoose("b", 0, len(vals)-1)]
+	sc := verifChoose("scale", 0, 3)
+	sd := []float64{math.Ldexp(1, 500), math.Ldexp(1, -500), math.Ldexp(1, 510), math.Ldexp(1, -505)}[sc]
+	ss := float32([]float64{math.Ldexp(1, 100), math.Ldexp(1, -100), math.Ldexp(1, 110), math.Ldexp(1, -90)}[sc])
+	c, s, r, z := impl.Drotg(a, b)
+	verifAssert(math.Abs(c*a+s*b-r) <= 1e-12 && math.Abs(-s*a+c*b) <= 1e-12 && (math.Abs(c*c+s*s-1) <= 1e-12 || (a == 0 && b == 0)), "Drotg: [c s; -s c]*[a; b] = [r; 0]")
+	c2, s2, r2, z2 := impl.Drotg(sd*a, sd*b)
+	verifAssert(math.Abs(c2-c) <= 1e-12 && math.Abs(s2-s) <= 1e-12 && math.Abs(z2-z) <= 1e-12 && math.Abs(r2-sd*r) <= 1e-12*sd*math.Abs(r) && !math.IsNaN(r2), "Drotg(s*a, s*b) = (c, s, s*r, z)")
+	cf, sf, rf, zf := impl.Srotg(float32(a), float32(b))
+	c3, s3, r3, z3 := impl.Srotg(ss*float32(a), ss*float32(b))
+	cl := func(x, y float32) bool { return math.Abs(float64(x)-float64(y)) <= 1e-5 }
+	verifAssert(cl(c3, cf) && cl(s3, sf) && cl(z3, zf) && math.Abs(float64(r3)-float64(ss)*float64(rf)) <= 1e-5*float64(ss)*math.Abs(float64(rf)) && !math.IsInf(float64(r3), 0), "Srotg(s*a, s*b) = (c, s, s*r, z)")
+	verifReach("end")
+}
